@@ -2,4 +2,5 @@ INIT GInit
 NEXT GNext
 CONSTANT NSample = 0
 CONSTANT NRand = 50
+CONSTANT NStack = 50
 CHECK_DEADLOCK FALSE
